@@ -10,6 +10,22 @@ HARNESS = os.path.join(framework.VERIF, "vf", "ch", "c18_harness.py")
 BROKEN = ["{ RdV = RsV +; }", "{ RdV = ; }", "{ if (RsV { RdV = 1; } }", "{ RdV = RsV $ RtV; }", "{ RdV = (RsV; }", "}{", ""]
 
 
+def near_miss(text, rng):
+    """A behaviour that differs from a valid one in WHITESPACE ONLY (usually no longer valid): a blank inserted inside a
+    multi-character operator, number or identifier, or a blank removed between two words."""
+    import re
+    cands = [m.start() + 1 for m in re.finditer(r"<<|>>|&&|\|\||==|!=|<=|>=|\+\+|--|[-+*&|^]=|->", text)]
+    cands += [m.start() + 1 for m in re.finditer(r"[A-Za-z_]\w{2,}|\d{2,}", text)]
+    joins = [m.start() for m in re.finditer(r"(?<=\w) (?=\w)", text)]
+    if joins and (not cands or rng.random() < 0.25):
+        i = rng.choice(joins)
+        return text[:i] + text[i + 1:]
+    if not cands:
+        return text + " }"
+    i = rng.choice(cands)
+    return text[:i] + " " + text[i:]
+
+
 def _real_pool(rep, tier, rng):
     """Validation of the stub's contract: the REAL Parser.parse with pools of size 1, 2, 16 on corpus subsets with injected
     broken behaviours vs sequential parse_single (concrete runs - the scheduler cannot be encoded)."""
@@ -27,6 +43,10 @@ def _real_pool(rep, tier, rng):
                 beh[f"broken_{i}"] = [rng.choice(BROKEN)]
             if i % 7 == 3:
                 beh[f"halfbroken_{i}"] = [B[n][0], rng.choice(BROKEN[:5])]
+            if i % 3 == 1:
+                # whitespace-only variants of a behaviour that is in the same run (a result must depend on the exact text only)
+                beh[f"near_{i}"] = [near_miss(B[n][0], rng)] + list(B[n][1:])
+                beh[f"near2_{i}"] = [B[n][0], near_miss(B[n][0], rng)]
         items = list(beh.items())
         rng.shuffle(items)
         beh = dict(items)
@@ -38,6 +58,8 @@ def _real_pool(rep, tier, rng):
         finally:
             P.Pool = saved
         grammar = corpus.grammar_text()
+        from lark import Lark
+        oracle = Lark(grammar, start="fbody", parser="earley")  # independent of Parser.py: one parser object, each text parsed on its own
         for name, parts in beh.items():
             key = f"pool{size}:{name}"
             n_items += 1
@@ -50,6 +72,16 @@ def _real_pool(rep, tier, rng):
                     and (e.exception is None or e.exception.name == seq.exception.name)
                     and [t.pretty() for t in e.asts] == [t.pretty() for t in seq.asts])
             isolated = (e.exception is None and len(e.asts) == len(parts)) or (e.exception is not None and e.asts == [])
+            try:
+                otrees, oexc = [oracle.parse(p_).pretty() for p_ in parts], None
+            except Exception as ex:  # noqa
+                otrees, oexc = [], type(ex).__name__
+            if (e.exception is None) != (oexc is None) or (oexc is None and [t.pretty() for t in e.asts] != otrees) \
+                    or (oexc is not None and e.exception.name != oexc):
+                rep.add(key, "violation", "pooled-vs-own-text", f"pool size {size}: the entry does not correspond to ITS OWN text: pooled "
+                        f"(exception {getattr(e.exception, 'name', None)}, {len(e.asts)} trees) vs a direct parse of the same parts "
+                        f"(exception {oexc}, {len(otrees)} trees)", parts=list(parts))
+                continue
             if same and isolated:
                 rep.add(key, "ok")
             else:
@@ -72,7 +104,8 @@ def run(tier):
                     "one entry per name, unbroken entries carry one tree per part in order and no exception, broken entries the error's "
                     "class name and no trees, and equals sequential parse_single.  Pool sizes / interleavings are discharged BY the stub's "
                     "contract, not explored; as validation of that contract the real pool is run with sizes 1, 2, 16 on corpus subsets "
-                    "with injected broken behaviours (concrete).",
+                    "with injected broken behaviours and whitespace-only variants of behaviours of the same run (concrete); every pooled entry "
+                    "is also compared with a direct parse of its own parts by an independent Lark object.",
         functions_encoded=["Parser.parse", "parse_single", "ParsedInsn", "ParserException", "InsnParsingBundle"],
         evaluations=len(res) + n_items, distinct_nontrivial=n_items, conditions_confirmed=nconf,
         rule="one CrossHair condition per entry count; one concrete item per (pool size, instruction name)",
